@@ -1,10 +1,13 @@
 //! C12 correspondence harness: the real tonic InterceptedService / InterceptorLayer over a
-//! recording inner tower service.
+//! recording inner tower service with scripted poll_ready, futures and response bodies.
 use bytes::Bytes;
 use http::{HeaderMap, HeaderName, HeaderValue};
-use http_body::Body as _;
-use http_body_util::BodyExt;
+use http_body::{Frame, SizeHint};
 use serde_json::{json, Value};
+use std::collections::{BTreeMap, VecDeque};
+use std::future::Future;
+use std::pin::Pin;
+use std::sync::atomic::{AtomicUsize, Ordering};
 use std::sync::{Arc, Mutex};
 use std::task::{Context, Poll};
 use tonic::metadata::{Ascii, Binary, MetadataKey, MetadataMap, MetadataValue};
@@ -13,7 +16,7 @@ use tonic::service::InterceptorLayer;
 use tonic::{Code, Status};
 use tower_layer::Layer;
 use tower_service::Service;
-use vcommon::body::{noop_waker, spin, Ev, ScriptBody};
+use vcommon::body::noop_waker;
 use vcommon::*;
 
 const IMPORTS: &str =
@@ -241,7 +244,223 @@ fn status_tr(st: &Status) -> Tr {
     ])
 }
 
-// ------------------------------------------------------------------ the recording inner service
+
+// ------------------------------------------------------------------ independent codecs (oracle only)
+/// percent-decoding written here (not tonic's / the percent-encoding crate's): None unless every
+/// '%' is followed by two hex digits and every byte is a visible ASCII character or a space
+fn own_pct_decode(v: &[u8]) -> Option<Vec<u8>> {
+    let hexv = |c: u8| match c {
+        b'0'..=b'9' => Some(c - b'0'),
+        b'a'..=b'f' => Some(c - b'a' + 10),
+        b'A'..=b'F' => Some(c - b'A' + 10),
+        _ => None,
+    };
+    let mut o = vec![];
+    let mut i = 0;
+    while i < v.len() {
+        let c = v[i];
+        if !(0x20..=0x7e).contains(&c) {
+            return None;
+        }
+        if c == b'%' {
+            let h = hexv(*v.get(i + 1)?)?;
+            let l = hexv(*v.get(i + 2)?)?;
+            o.push(h * 16 + l);
+            i += 3;
+        } else {
+            o.push(c);
+            i += 1;
+        }
+    }
+    Some(o)
+}
+/// base64 decoding written here: standard alphabet, padding optional, no stray characters
+fn own_b64_decode(v: &[u8]) -> Option<Vec<u8>> {
+    let body: Vec<u8> = {
+        let mut e = v.len();
+        while e > 0 && v[e - 1] == b'=' && v.len() - e < 2 {
+            e -= 1;
+        }
+        v[..e].to_vec()
+    };
+    if body.len() % 4 == 1 || (v.len() != body.len() && v.len() % 4 != 0) {
+        return None;
+    }
+    let mut o = vec![];
+    let mut acc: u32 = 0;
+    let mut bits = 0;
+    for c in body {
+        let s = B64.iter().position(|x| *x == c)? as u32;
+        acc = (acc << 6) | s;
+        bits += 6;
+        if bits >= 8 {
+            bits -= 8;
+            o.push((acc >> bits) as u8);
+            acc &= (1 << bits) - 1;
+        }
+    }
+    if acc != 0 {
+        return None; // non-zero trailing bits
+    }
+    Some(o)
+}
+type Grouped = BTreeMap<String, Vec<Vec<u8>>>;
+fn group_pairs(p: &[(String, Vec<u8>)]) -> Grouped {
+    let mut g = Grouped::new();
+    for (k, v) in p {
+        g.entry(k.clone()).or_default().push(v.clone());
+    }
+    g
+}
+fn group_hm(h: &HeaderMap) -> Grouped {
+    let mut g = Grouped::new();
+    for (k, v) in h.iter() {
+        g.entry(k.as_str().to_string()).or_default().push(v.as_bytes().to_vec());
+    }
+    g
+}
+
+// ------------------------------------------------------------------ scripted inner body / future / service
+type Hint = (u64, Option<u64>);
+#[derive(Clone, Debug)]
+enum BEv {
+    Pending,
+    Data(Vec<u8>),
+    Trailers(HeaderMap),
+    Err(String),
+}
+/// while a step is at the head of the script the body reports `end` / `hint`; poll_frame answers
+/// `ev` and drops the step.  Exhausted: poll_frame None, `fin`.  The reported values are arbitrary
+/// (not derived from the frames): a wrapper that delegates must repeat them, whatever they are.
+#[derive(Clone, Debug)]
+struct Step {
+    end: bool,
+    hint: Hint,
+    ev: BEv,
+}
+#[derive(Clone, Debug)]
+struct BodyScript {
+    steps: Vec<Step>,
+    fin: (bool, Hint),
+}
+struct HintBody {
+    steps: VecDeque<Step>,
+    fin: (bool, Hint),
+}
+impl HintBody {
+    fn new(s: &BodyScript) -> Self {
+        HintBody { steps: s.steps.clone().into(), fin: s.fin }
+    }
+}
+fn mk_hint(h: Hint) -> SizeHint {
+    let mut s = SizeHint::new();
+    s.set_lower(h.0);
+    if let Some(u) = h.1 {
+        s.set_upper(u);
+    }
+    s
+}
+impl http_body::Body for HintBody {
+    type Data = Bytes;
+    type Error = String;
+    fn poll_frame(mut self: Pin<&mut Self>, _: &mut Context<'_>) -> Poll<Option<Result<Frame<Bytes>, String>>> {
+        match self.steps.pop_front() {
+            None => Poll::Ready(None),
+            Some(s) => match s.ev {
+                BEv::Pending => Poll::Pending,
+                BEv::Data(d) => Poll::Ready(Some(Ok(Frame::data(Bytes::from(d))))),
+                BEv::Trailers(t) => Poll::Ready(Some(Ok(Frame::trailers(t)))),
+                BEv::Err(e) => Poll::Ready(Some(Err(e))),
+            },
+        }
+    }
+    fn is_end_stream(&self) -> bool {
+        self.steps.front().map(|s| s.end).unwrap_or(self.fin.0)
+    }
+    fn size_hint(&self) -> SizeHint {
+        mk_hint(self.steps.front().map(|s| s.hint).unwrap_or(self.fin.1))
+    }
+}
+fn hint_tr(h: &SizeHint) -> Tr {
+    Tr::L(vec![Tr::n(h.lower()), Tr::opt(h.upper().map(Tr::n))])
+}
+/// use a body as the script of uses says (0 poll_frame, 1 is_end_stream, 2 size_hint)
+fn use_body<B: http_body::Body<Data = Bytes, Error = String> + Unpin>(b: &mut B, bops: &[u8]) -> Vec<Tr> {
+    let w = noop_waker();
+    let mut cx = Context::from_waker(&w);
+    bops.iter()
+        .map(|o| match o {
+            0 => match Pin::new(&mut *b).poll_frame(&mut cx) {
+                Poll::Pending => Tr::L(vec![Tr::n(0u8)]),
+                Poll::Ready(None) => Tr::L(vec![Tr::n(1u8)]),
+                Poll::Ready(Some(Ok(fr))) => match fr.into_data() {
+                    Ok(d) => Tr::L(vec![Tr::n(2u8), Tr::b(&d)]),
+                    Err(fr) => Tr::L(vec![Tr::n(3u8), hm_tr(&fr.into_trailers().ok().expect("a frame is data or trailers"))]),
+                },
+                Poll::Ready(Some(Err(e))) => Tr::L(vec![Tr::n(4u8), Tr::s(&e)]),
+            },
+            1 => Tr::L(vec![Tr::n(5u8), Tr::bool(b.is_end_stream())]),
+            _ => Tr::L(vec![Tr::n(6u8), hint_tr(&b.size_hint())]),
+        })
+        .collect()
+}
+fn coq_hint(h: &Hint) -> String {
+    format!("({}, {})", h.0, coq_opt(&h.1, |u| u.to_string()))
+}
+fn coq_body(b: &BodyScript) -> String {
+    format!(
+        "({}, ({}, {}))",
+        coq_list(&b.steps, |s| {
+            let ev = match &s.ev {
+                BEv::Pending => "(0, (inl [], []))".to_string(),
+                BEv::Data(d) => format!("(1, (inl {}, []))", coq_bytes(d)),
+                BEv::Trailers(t) => format!("(1, (inr {}, []))", coq_hm(t)),
+                BEv::Err(e) => format!("(2, (inl [], {}))", coq_bytes(e.as_bytes())),
+            };
+            format!("({}, {}, {})", coq_bool(s.end), coq_hint(&s.hint), ev)
+        }),
+        coq_bool(b.fin.0),
+        coq_hint(&b.fin.1)
+    )
+}
+fn body_json(b: &BodyScript) -> Value {
+    json!({"steps": b.steps.iter().map(|s| json!([s.end, [s.hint.0, s.hint.1], match &s.ev {
+        BEv::Pending => json!("pending"), BEv::Data(d) => json!({"data": hex(d)}),
+        BEv::Trailers(t) => json!({"trailers": hm_json(t)}), BEv::Err(e) => json!({"err": e}) }])).collect::<Vec<_>>(),
+        "fin": [b.fin.0, [b.fin.1 .0, b.fin.1 .1]]})
+}
+
+/// the inner service's answer: Err(text) or (status, headers, scripted body)
+#[derive(Clone, Debug)]
+enum Answer {
+    Err(String),
+    Ok(u16, HeaderMap, BodyScript),
+}
+fn coq_answer(a: &Answer) -> String {
+    match a {
+        Answer::Err(e) => format!("(inl {})", coq_bytes(e.as_bytes())),
+        Answer::Ok(c, h, b) => format!("(inr (({}, {}), {}))", c, coq_hm(h), coq_body(b)),
+    }
+}
+/// the inner future: Pending `pend` times, then the answer; every poll is counted
+struct ScriptFut {
+    pend: usize,
+    out: Option<Result<http::Response<HintBody>, String>>,
+    polls: Arc<AtomicUsize>,
+}
+impl Future for ScriptFut {
+    type Output = Result<http::Response<HintBody>, String>;
+    fn poll(mut self: Pin<&mut Self>, _: &mut Context<'_>) -> Poll<Self::Output> {
+        self.polls.fetch_add(1, Ordering::SeqCst);
+        if self.pend > 0 {
+            self.pend -= 1;
+            Poll::Pending
+        } else {
+            Poll::Ready(self.out.take().expect("the inner future was polled after completion"))
+        }
+    }
+}
+
 #[derive(Clone, Debug)]
 struct Seen {
     method: String,
@@ -254,52 +473,91 @@ struct Seen {
 fn seen_tr(s: &Seen) -> Tr {
     Tr::L(vec![Tr::s(&s.method), Tr::s(&s.uri), Tr::n(s.version), hm_tr(&s.headers), ext_tr(&s.ext), Tr::b(&s.body)])
 }
-/// the inner service's answer: code 0 = Err(text); else status, headers, body data, body trailers
-type Resp = (u16, HeaderMap, Vec<u8>, Option<HeaderMap>);
-#[derive(Clone)]
+#[derive(Clone, Debug)]
+enum Entry {
+    Ready,
+    Call(Seen),
+}
+#[derive(Clone, Debug, PartialEq)]
+enum ReadyEv {
+    Pending,
+    Ok,
+    Err(String),
+}
+fn ready_tr(p: &Poll<Result<(), String>>) -> Tr {
+    match p {
+        Poll::Pending => Tr::L(vec![Tr::n(0u8)]),
+        Poll::Ready(Ok(())) => Tr::L(vec![Tr::n(1u8)]),
+        Poll::Ready(Err(e)) => Tr::L(vec![Tr::n(2u8), Tr::s(e)]),
+    }
+}
+/// the recording inner service: scripted poll_ready (Ready(Ok) once the script is exhausted), a log of
+/// everything it is asked, one ScriptFut per call
 struct Recorder {
-    calls: Arc<Mutex<Vec<Seen>>>,
-    resp: Resp,
+    log: Arc<Mutex<Vec<Entry>>>,
+    ready: VecDeque<ReadyEv>,
+    pend: usize,
+    answer: Answer,
+    fut_polls: Arc<AtomicUsize>,
 }
 impl Service<http::Request<Vec<u8>>> for Recorder {
-    type Response = http::Response<ScriptBody<String>>;
+    type Response = http::Response<HintBody>;
     type Error = String;
-    type Future = std::future::Ready<Result<Self::Response, String>>;
+    type Future = ScriptFut;
     fn poll_ready(&mut self, _: &mut Context<'_>) -> Poll<Result<(), String>> {
-        Poll::Ready(Ok(()))
+        self.log.lock().unwrap().push(Entry::Ready);
+        match self.ready.pop_front() {
+            None | Some(ReadyEv::Ok) => Poll::Ready(Ok(())),
+            Some(ReadyEv::Pending) => Poll::Pending,
+            Some(ReadyEv::Err(e)) => Poll::Ready(Err(e)),
+        }
     }
-    fn call(&mut self, req: http::Request<Vec<u8>>) -> Self::Future {
+    fn call(&mut self, req: http::Request<Vec<u8>>) -> ScriptFut {
         let (p, body) = req.into_parts();
-        self.calls.lock().unwrap().push(Seen {
+        self.log.lock().unwrap().push(Entry::Call(Seen {
             method: p.method.as_str().to_string(),
             uri: p.uri.to_string(),
             version: version_n(p.version),
             headers: p.headers,
             ext: ext_of(&p.extensions),
             body,
-        });
-        if self.resp.0 == 0 {
-            return std::future::ready(Err(String::from_utf8_lossy(&self.resp.2).to_string()));
-        }
-        let mut evs = vec![Ev::Data(self.resp.2.clone())];
-        if let Some(t) = &self.resp.3 {
-            evs.push(Ev::Trailers(t.clone()));
-        }
-        let mut res = http::Response::new(ScriptBody::new(evs).0);
-        *res.status_mut() = http::StatusCode::from_u16(self.resp.0).unwrap();
-        *res.headers_mut() = self.resp.1.clone();
-        std::future::ready(Ok(res))
+        }));
+        let out = match &self.answer {
+            Answer::Err(e) => Err(e.clone()),
+            Answer::Ok(c, h, b) => {
+                let mut res = http::Response::new(HintBody::new(b));
+                *res.status_mut() = http::StatusCode::from_u16(*c).unwrap();
+                *res.headers_mut() = h.clone();
+                Ok(res)
+            }
+        };
+        ScriptFut { pend: self.pend, out: Some(out), polls: self.fut_polls.clone() }
     }
 }
 
-// ------------------------------------------------------------------ one case
+// ------------------------------------------------------------------ one case = one service, a sequence of uses
+/// the metadata of a rejecting status: built through the typed MetadataMap API, or given as raw header
+/// entries (MetadataMap::from_headers) - then the expectation does not go through tonic at all
+#[derive(Clone, Debug)]
+enum MdSpec {
+    Ops(Vec<Op>),
+    Raw(Vec<(String, Vec<u8>)>),
+}
+#[derive(Clone, Debug)]
+struct StatusSpec {
+    code: u32,
+    msg: String,
+    details: Vec<u8>,
+    md: MdSpec,
+}
 #[derive(Clone, Debug)]
 struct Action {
     fresh: bool,
     ops: Vec<Op>,
     ext: Option<Ext>,
-    reject: Option<(u32, String, Vec<u8>, Vec<Op>)>,
+    reject: Option<StatusSpec>,
 }
+#[derive(Clone)]
 struct Req {
     method: String,
     uri: String,
@@ -308,54 +566,178 @@ struct Req {
     ext: Ext,
     body: Vec<u8>,
 }
-#[derive(Default)]
-struct Tap {
-    in_md: Option<HeaderMap>,
-    in_ext: Option<Ext>,
-    out_md: Option<HeaderMap>,
-    out_ext: Option<Ext>,
-    calls: u32,
+#[derive(Clone)]
+struct Cfg {
+    ready: Vec<ReadyEv>,
+    pend: usize,
+    answer: Answer,
+    polls_acc: usize,
+    polls_rej: usize,
+    bops: Vec<u8>,
 }
-fn build_status(rj: &(u32, String, Vec<u8>, Vec<Op>)) -> (Status, HeaderMap) {
-    let mut md = MetadataMap::new();
-    apply_ops_to(&mut md, &rj.3);
-    let h = md.clone().into_headers();
-    (
-        Status::with_details_and_metadata(Code::from_i32(rj.0 as i32), rj.1.clone(), Bytes::copy_from_slice(&rj.2), md),
-        h,
+#[derive(Default, Clone)]
+struct Tap {
+    in_md: HeaderMap,
+    in_ext: Ext,
+    out: Option<(HeaderMap, Ext)>,
+}
+/// the status a spec describes and its metadata as (name, value) entries in map order
+fn build_status(s: &StatusSpec) -> (Status, Vec<(String, Vec<u8>)>) {
+    let (md, pairs) = match &s.md {
+        MdSpec::Ops(ops) => {
+            let mut md = MetadataMap::new();
+            apply_ops_to(&mut md, ops);
+            let h = md.clone().into_headers();
+            let pairs = h.iter().map(|(k, v)| (k.as_str().to_string(), v.as_bytes().to_vec())).collect();
+            (md, pairs)
+        }
+        MdSpec::Raw(p) => {
+            let mut h = HeaderMap::new();
+            for (k, v) in p {
+                h.append(HeaderName::from_bytes(k.as_bytes()).unwrap(), HeaderValue::from_bytes(v).unwrap());
+            }
+            // the model gets the entries in the map's iteration order (entries of one name together)
+            let pairs = h.iter().map(|(k, v)| (k.as_str().to_string(), v.as_bytes().to_vec())).collect();
+            (MetadataMap::from_headers(h), pairs)
+        }
+    };
+    (Status::with_details_and_metadata(Code::from_i32(s.code as i32), s.msg.clone(), Bytes::copy_from_slice(&s.details), md), pairs)
+}
+fn spec_pairs_independent(s: &StatusSpec) -> Option<Grouped> {
+    match &s.md {
+        MdSpec::Raw(p) => Some(group_pairs(p)),
+        MdSpec::Ops(_) => None,
+    }
+}
+fn coq_status(s: &StatusSpec) -> String {
+    let (_, pairs) = build_status(s);
+    let pv: Vec<(Vec<u8>, Vec<u8>)> = pairs.iter().map(|(k, v)| (k.as_bytes().to_vec(), v.clone())).collect();
+    format!("(mkStatus {} {} {} {})", s.code, coq_bytes(s.msg.as_bytes()), coq_bytes(&s.details), coq_pairs(&pv))
+}
+fn coq_action(a: &Action) -> String {
+    format!(
+        "(mkAction {} {} {} {})",
+        coq_bool(a.fresh),
+        coq_ops(&a.ops),
+        coq_opt(&a.ext, ext_coq),
+        match &a.reject {
+            None => "None".to_string(),
+            Some(s) => format!("(Some {})", coq_status(s)),
+        }
     )
 }
-fn case(out: &mut Out, rq: Req, act: Action, resp: Resp, via_layer: bool, corpus: bool) {
-    let calls = Arc::new(Mutex::new(vec![]));
-    let tap = Arc::new(Mutex::new(Tap::default()));
-    let inner = Recorder { calls: calls.clone(), resp: resp.clone() };
-    let (a2, tap2) = (act.clone(), tap.clone());
-    let f = move |mut req: tonic::Request<()>| -> Result<tonic::Request<()>, Status> {
-        let mut t = tap2.lock().unwrap();
-        t.calls += 1;
-        t.in_md = Some(req.metadata().clone().into_headers());
-        t.in_ext = Some(ext_of(req.extensions()));
-        if let Some(rj) = &a2.reject {
-            return Err(build_status(rj).0);
+fn coq_req(rq: &Req, uri_s: &str) -> String {
+    format!(
+        "(mkHttpReq {} {} {} {} {} {})",
+        coq_bytes(rq.method.as_bytes()),
+        coq_bytes(uri_s.as_bytes()),
+        version_n(rq.version),
+        coq_hm(&rq.headers),
+        ext_coq(&rq.ext),
+        coq_bytes(&rq.body)
+    )
+}
+fn status_json(s: &StatusSpec) -> Value {
+    json!({"code": s.code, "msg": hex(s.msg.as_bytes()), "details": hex(&s.details), "md": match &s.md {
+        MdSpec::Ops(o) => json!({"ops": ops_json(o)}),
+        MdSpec::Raw(p) => json!({"raw": p.iter().map(|(k, v)| json!([k, hex(v)])).collect::<Vec<_>>()}) }})
+}
+fn action_json(a: &Action) -> Value {
+    json!({"fresh": a.fresh, "ops": ops_json(&a.ops), "ext": a.ext.as_ref().map(|e| json!([e.0, e.1])),
+           "reject": a.reject.as_ref().map(status_json)})
+}
+
+/// the wire-level check of a rejected call's response head, independent of tonic's Status code:
+/// own decimal / percent / base64 codecs, expectation from the spec
+fn judge_reject_head(spec: &StatusSpec, md: &Grouped, md_independent: bool, code: u16, h: &HeaderMap) -> Option<String> {
+    if code != 200 {
+        return Some(format!("HTTP status {}", code));
+    }
+    let wire = group_hm(h);
+    let user_details = md.contains_key("grpc-status-details-bin");
+    // expected names
+    let mut want: BTreeMap<String, Option<Vec<Vec<u8>>>> = BTreeMap::new(); // None = judged by decoding
+    want.insert("content-type".into(), Some(vec![b"application/grpc".to_vec()]));
+    for (k, vs) in md {
+        if !is_reserved(k) {
+            want.insert(k.clone(), Some(vs.clone()));
         }
-        if a2.fresh {
-            *req.metadata_mut() = MetadataMap::new();
+    }
+    want.insert("grpc-status".into(), Some(vec![spec.code.to_string().into_bytes()]));
+    if !spec.msg.is_empty() {
+        want.insert("grpc-message".into(), None);
+    }
+    if !spec.details.is_empty() {
+        want.insert("grpc-status-details-bin".into(), None);
+    }
+    for k in wire.keys() {
+        if !want.contains_key(k) {
+            return Some(format!("response header {} does not belong to the status", k));
         }
-        apply_ops_to(req.metadata_mut(), &a2.ops);
-        if let Some((m, tg)) = &a2.ext {
-            req.extensions_mut().remove::<Marker>();
-            req.extensions_mut().remove::<Tag>();
-            if let Some(m) = m {
-                req.extensions_mut().insert(Marker(*m));
+    }
+    for (k, w) in &want {
+        let got = match wire.get(k) {
+            None => return Some(format!("response header {} is missing", k)),
+            Some(g) => g,
+        };
+        match w {
+            Some(vs) => {
+                if got != vs {
+                    return Some(format!("response header {} does not carry the status's value(s)", k));
+                }
             }
-            if let Some(tg) = tg {
-                req.extensions_mut().insert(Tag(tg.clone()));
+            None => {
+                if got.len() != 1 {
+                    return Some(format!("{} values of {}", got.len(), k));
+                }
+                if k == "grpc-message" {
+                    if own_pct_decode(&got[0]).as_deref() != Some(spec.msg.as_bytes()) {
+                        return Some("grpc-message does not percent-decode (own decoder) to the status message".into());
+                    }
+                } else if own_b64_decode(&got[0]).as_deref() != Some(&spec.details[..]) {
+                    return Some("grpc-status-details-bin does not base64-decode (own decoder) to the status details".into());
+                }
             }
         }
-        t.out_md = Some(req.metadata().clone().into_headers());
-        t.out_ext = Some(ext_of(req.extensions()));
-        Ok(req)
+    }
+    // what a caller recovers with tonic's reader, against the SPEC (not against a tonic-built status)
+    let back = match Status::from_header_map(h) {
+        None => return Some("no status in the response headers".into()),
+        Some(b) => b,
     };
+    if back.code() as i32 != spec.code as i32 {
+        return Some(format!("code {} read back as {:?}", spec.code, back.code()));
+    }
+    if back.message() != spec.msg {
+        return Some("message changed".into());
+    }
+    if user_details && spec.details.is_empty() {
+        // SWITCH (documented in checks/C12.json, audit M1/M15): the status metadata holds a user entry
+        // under the protocol name grpc-status-details-bin and the status has no details; tonic's reader
+        // takes the user's entry for the details.  Outside the premise of c12_reject_status_recovered;
+        // the wire clauses above and code / message are judged, details and recovered metadata are not.
+        return None;
+    }
+    if back.details() != &spec.details[..] {
+        return Some("details changed".into());
+    }
+    let bm = group_hm(&back.metadata().clone().into_headers());
+    let mut want_md: Grouped = md.iter().filter(|(k, _)| !is_reserved(k) && k.as_str() != "grpc-status-details-bin").map(|(k, v)| (k.clone(), v.clone())).collect();
+    want_md.insert("content-type".into(), vec![b"application/grpc".to_vec()]);
+    if bm != want_md {
+        return Some(format!(
+            "recovered metadata is not the status metadata minus the reserved names plus tonic's content-type{}",
+            if md_independent { " (expectation from raw entries)" } else { "" }
+        ));
+    }
+    None
+}
+
+enum SOp {
+    Ready,
+    Call(Req),
+}
+fn build_hreq(rq: &Req) -> http::Request<Vec<u8>> {
     let mut hreq = http::Request::new(rq.body.clone());
     *hreq.method_mut() = http::Method::from_bytes(rq.method.as_bytes()).unwrap();
     *hreq.uri_mut() = rq.uri.parse().unwrap();
@@ -367,259 +749,420 @@ fn case(out: &mut Out, rq: Req, act: Action, resp: Resp, via_layer: bool, corpus
     if let Some(t) = &rq.ext.1 {
         hreq.extensions_mut().insert(Tag(t.clone()));
     }
-    let uri_s = hreq.uri().to_string();
-    let method_s = hreq.method().as_str().to_string();
+    hreq
+}
+const REPOLL_PANIC: &str = "called `Option::unwrap()` on a `None` value";
 
-    // what came back: Ok(status, version, headers, body) / Err(inner error)
-    #[derive(Debug)]
-    struct BodySeen {
-        data: Vec<u8>,
-        trailers: Option<HeaderMap>,
-        frames: usize,
-        end_before: bool,
-        size_exact: Option<u64>,
-    }
-    type Back = Result<(u16, u32, HeaderMap, BodySeen), String>;
-    let res: Result<Back, String> = catch(std::panic::AssertUnwindSafe(|| {
-        let w = noop_waker();
-        let mut cx = Context::from_waker(&w);
-        let fut_out = if via_layer {
-            let mut svc = InterceptorLayer::new(f).layer(inner);
-            assert!(matches!(svc.poll_ready(&mut cx), Poll::Ready(Ok(()))));
-            spin(svc.call(hreq), 100).expect("future hangs")
-        } else {
-            let mut svc = InterceptedService::new(inner, f);
-            assert!(matches!(svc.poll_ready(&mut cx), Poll::Ready(Ok(()))));
-            spin(svc.call(hreq), 100).expect("future hangs")
-        };
-        match fut_out {
-            Err(e) => Err(e),
-            Ok(r) => {
-                let (p, mut body) = r.into_parts();
-                let mut b = BodySeen { data: vec![], trailers: None, frames: 0, end_before: body.is_end_stream(), size_exact: body.size_hint().exact() };
-                spin(
-                    async {
-                        while let Some(fr) = body.frame().await {
-                            b.frames += 1;
-                            match fr.expect("body error").into_data() {
-                                Ok(d) => b.data.extend_from_slice(&d),
-                                Err(fr) => b.trailers = fr.into_trailers().ok(),
-                            }
-                        }
-                    },
-                    100,
-                )
-                .expect("body hangs");
-                Ok((p.status.as_u16(), version_n(p.version), p.headers, b))
+fn run_seq(out: &mut Out, kind: &str, acts: Vec<Action>, cfg: Cfg, ops: Vec<SOp>, via_layer: bool) {
+    let log = Arc::new(Mutex::new(vec![]));
+    let fut_polls = Arc::new(AtomicUsize::new(0));
+    let taps: Arc<Mutex<Vec<Tap>>> = Arc::new(Mutex::new(vec![]));
+    let inner = Recorder { log: log.clone(), ready: cfg.ready.clone().into(), pend: cfg.pend, answer: cfg.answer.clone(), fut_polls: fut_polls.clone() };
+    let (acts2, taps2) = (acts.clone(), taps.clone());
+    let mut counter: usize = 0; // the interceptor's own state (FnMut)
+    let f = move |mut req: tonic::Request<()>| -> Result<tonic::Request<()>, Status> {
+        let a = if acts2.is_empty() { Action { fresh: false, ops: vec![], ext: None, reject: None } } else { acts2[counter % acts2.len()].clone() };
+        counter += 1;
+        let mut t = Tap { in_md: req.metadata().clone().into_headers(), in_ext: ext_of(req.extensions()), out: None };
+        if let Some(rj) = &a.reject {
+            taps2.lock().unwrap().push(t);
+            return Err(build_status(rj).0);
+        }
+        if a.fresh {
+            *req.metadata_mut() = MetadataMap::new();
+        }
+        apply_ops_to(req.metadata_mut(), &a.ops);
+        if let Some((m, tg)) = &a.ext {
+            req.extensions_mut().remove::<Marker>();
+            req.extensions_mut().remove::<Tag>();
+            if let Some(m) = m {
+                req.extensions_mut().insert(Marker(*m));
+            }
+            if let Some(tg) = tg {
+                req.extensions_mut().insert(Tag(tg.clone()));
             }
         }
-    }));
-    let body_tr = |b: &BodySeen| {
-        Tr::L(vec![
-            Tr::L(if b.frames == 0 { vec![] } else { vec![Tr::L(vec![Tr::b(&b.data), Tr::opt(b.trailers.as_ref().map(hm_tr))])] }),
-            Tr::bool(b.end_before),
-            Tr::opt(b.size_exact.map(Tr::n)),
-        ])
+        t.out = Some((req.metadata().clone().into_headers(), ext_of(req.extensions())));
+        taps2.lock().unwrap().push(t);
+        Ok(req)
     };
-    let seen: Vec<Seen> = calls.lock().unwrap().clone();
-    let tap = tap.lock().unwrap();
+    let mut svc: InterceptedService<Recorder, _> = if via_layer { InterceptorLayer::new(f).layer(inner) } else { InterceptedService::new(inner, f) };
 
-    // ---- implementation observable + direct oracle
+    let w = noop_waker();
+    let mut cx = Context::from_waker(&w);
     let mut why: Option<String> = None;
-    let out_tr = match &res {
-        Err(p) => {
-            why = Some(format!("panic: {}", p));
-            Tr::L(vec![Tr::n(99u8)])
-        }
-        Ok(Err(e)) => Tr::L(vec![Tr::n(3u8), Tr::s(e)]),
-        Ok(Ok((code, ver, h, body))) => {
-            if act.reject.is_some() {
-                Tr::L(vec![
-                    Tr::n(2u8),
-                    Tr::n(*code),
-                    Tr::n(*ver),
-                    hm_tr(h),
-                    Tr::opt(Status::from_header_map(h).as_ref().map(status_tr)),
-                    body_tr(body),
-                ])
-            } else {
-                Tr::L(vec![Tr::n(1u8), Tr::n(*code), hm_tr(h), body_tr(body)])
-            }
+    let fail = |w: &mut Option<String>, s: String| {
+        if w.is_none() {
+            *w = Some(s);
         }
     };
-    if why.is_none() {
-        if tap.calls != 1 {
-            why = Some(format!("interceptor called {} times", tap.calls));
-        } else if tap.in_md.as_ref() != Some(&rq.headers) || tap.in_ext.as_ref() != Some(&rq.ext) {
-            why = Some("the interceptor did not see the request's headers / extensions".to_string());
-        }
-    }
-    if why.is_none() {
-        match &act.reject {
-            None => {
-                // accept: inner saw the interceptor's metadata/extensions + the original rest
-                if seen.len() != 1 {
-                    why = Some(format!("inner service called {} times after an accept", seen.len()));
-                } else {
-                    let s = &seen[0];
-                    let (om, oe) = (tap.out_md.as_ref().unwrap(), tap.out_ext.as_ref().unwrap());
-                    if s.method != method_s {
-                        why = Some("method changed".into());
-                    } else if s.uri != uri_s {
-                        why = Some("uri changed".into());
-                    } else if s.version != version_n(rq.version) {
-                        why = Some("version changed".into());
-                    } else if s.body != rq.body {
-                        why = Some("body changed".into());
-                    } else if &s.ext != oe {
-                        why = Some("extensions are not the interceptor's".into());
-                    } else if &s.headers != om {
-                        why = Some("headers are not the interceptor's metadata".into());
-                    } else if !act.fresh {
-                        // every header the interceptor's mutations did not name is the original one
-                        let named: Vec<String> = act.ops.iter().map(|o| o.key.to_ascii_lowercase()).collect();
-                        for k in rq.headers.keys() {
-                            if named.iter().any(|n| n == k.as_str()) {
-                                continue;
-                            }
-                            let a: Vec<_> = rq.headers.get_all(k).iter().collect();
-                            let c: Vec<_> = s.headers.get_all(k).iter().collect();
-                            if a != c {
-                                why = Some(format!("untouched header {} changed (reserved: {})", k, is_reserved(k.as_str())));
-                            }
-                        }
-                        if act.ext.is_none() && s.ext != rq.ext {
-                            why = Some("untouched extensions changed".into());
-                        }
+    let mut results: Vec<Tr> = vec![];
+    let mut ready_script: VecDeque<ReadyEv> = cfg.ready.clone().into();
+    let mut n_calls = 0usize;
+    let mut uris: Vec<String> = vec![];
+    for op in &ops {
+        let log_before = log.lock().unwrap().len();
+        let taps_before = taps.lock().unwrap().len();
+        let polls_before = fut_polls.load(Ordering::SeqCst);
+        match op {
+            SOp::Ready => {
+                let r = catch(std::panic::AssertUnwindSafe(|| svc.poll_ready(&mut cx)));
+                match r {
+                    Err(p) => {
+                        fail(&mut why, format!("poll_ready panicked: {}", p));
+                        results.push(Tr::L(vec![Tr::n(0u8), Tr::L(vec![Tr::n(99u8)])]));
                     }
-                    // the inner answer is passed on
-                    match &res {
-                        Ok(Err(e)) if resp.0 == 0 && e.as_bytes() == &String::from_utf8_lossy(&resp.2).as_bytes()[..] => {}
-                        Ok(Ok((code, _, h, b))) if *code == resp.0 && h == &resp.1 && b.data == resp.2 && b.trailers == resp.3 && !b.end_before && b.size_exact.is_none() => {}
-                        _ if why.is_none() => why = Some("the inner service's answer was not passed on unchanged".into()),
-                        _ => {}
+                    Ok(p) => {
+                        // direct check: poll_ready is the inner service's, one for one, the interceptor is not run
+                        let want = match ready_script.pop_front() {
+                            None | Some(ReadyEv::Ok) => Poll::Ready(Ok(())),
+                            Some(ReadyEv::Pending) => Poll::Pending,
+                            Some(ReadyEv::Err(e)) => Poll::Ready(Err(e)),
+                        };
+                        if p != want {
+                            fail(&mut why, "poll_ready did not return what the inner service's poll_ready returned".into());
+                        }
+                        let lg = log.lock().unwrap();
+                        if lg.len() != log_before + 1 || !matches!(lg[log_before], Entry::Ready) {
+                            fail(&mut why, "poll_ready did not poll the inner service exactly once".into());
+                        }
+                        if taps.lock().unwrap().len() != taps_before {
+                            fail(&mut why, "poll_ready ran the interceptor".into());
+                        }
+                        results.push(Tr::L(vec![Tr::n(0u8), ready_tr(&p)]));
                     }
                 }
             }
-            Some(rj) => {
-                let (st, mdh) = build_status(rj);
-                if !seen.is_empty() {
-                    why = Some("inner service invoked although the interceptor rejected".into());
-                } else {
-                    match &res {
-                        Ok(Ok((code, _ver, h, body))) => {
-                            let back = Status::from_header_map(h);
-                            if *code != 200 {
-                                why = Some(format!("HTTP status {}", code));
-                            } else if h.get_all("content-type").iter().map(|v| v.as_bytes()).collect::<Vec<_>>() != vec![b"application/grpc"] {
-                                why = Some("content-type is not exactly application/grpc".into());
-                            } else if h.get_all("grpc-status").iter().count() != 1 {
-                                why = Some("not exactly one grpc-status".into());
-                            } else if !body.data.is_empty() || body.frames != 0 || body.trailers.is_some() {
-                                why = Some("body is not empty".into());
-                            } else if !body.end_before || body.size_exact != Some(0) {
-                                why = Some("the empty body does not announce itself as ended / of size 0".into());
-                            } else if mdh.contains_key("grpc-status-details-bin") {
-                                // outside the premises of c12_reject_status_recovered (a user entry under the
-                                // protocol name grpc-status-details-bin): only the wire-level clauses above apply
+            SOp::Call(rq) => {
+                let act = if acts.is_empty() { Action { fresh: false, ops: vec![], ext: None, reject: None } } else { acts[n_calls % acts.len()].clone() };
+                n_calls += 1;
+                let hreq = build_hreq(rq);
+                let uri_s = hreq.uri().to_string();
+                let method_s = hreq.method().as_str().to_string();
+                uris.push(uri_s.clone());
+                let fut = catch(std::panic::AssertUnwindSafe(|| svc.call(hreq)));
+                let mut fut = match fut {
+                    Err(p) => {
+                        fail(&mut why, format!("call panicked: {}", p));
+                        results.push(Tr::L(vec![Tr::n(1u8), Tr::L(vec![Tr::L(vec![Tr::n(99u8)])])]));
+                        continue;
+                    }
+                    Ok(f) => Box::pin(f),
+                };
+                // the inner service is invoked inside call(), before the future is ever polled
+                let seen_now: Vec<Entry> = log.lock().unwrap()[log_before..].to_vec();
+                let tap_now: Vec<Tap> = taps.lock().unwrap()[taps_before..].to_vec();
+                if tap_now.len() != 1 {
+                    fail(&mut why, format!("interceptor ran {} times for one call", tap_now.len()));
+                } else if tap_now[0].in_md != rq.headers || tap_now[0].in_ext != rq.ext {
+                    fail(&mut why, "the interceptor did not see the request's headers / extensions".into());
+                }
+                let n_polls = if act.reject.is_some() { cfg.polls_rej } else { cfg.polls_acc };
+                let mut trace: Vec<Tr> = vec![];
+                for i in 0..n_polls {
+                    let r = catch(std::panic::AssertUnwindSafe(|| fut.as_mut().poll(&mut cx)));
+                    match r {
+                        Err(p) => {
+                            trace.push(Tr::L(vec![Tr::n(99u8)]));
+                            if act.reject.is_some() && i >= 1 && p.contains(REPOLL_PANIC) {
+                                // a spent future may panic when polled again
                             } else {
-                                match back {
-                                    None => why = Some("no status in the response headers".into()),
-                                    Some(b) => {
-                                        if b.code() != st.code() {
-                                            why = Some(format!("code {:?} read back as {:?}", st.code(), b.code()));
-                                        } else if b.message() != st.message() {
-                                            why = Some("message changed".into());
-                                        } else if b.details() != st.details() {
-                                            why = Some("details changed".into());
-                                        } else {
-                                            // metadata: exactly the status metadata minus the six reserved names,
-                                            // plus the content-type tonic wrote
-                                            let bm = b.metadata().clone().into_headers();
-                                            for k in mdh.keys() {
-                                                if is_reserved(k.as_str()) {
-                                                    continue;
-                                                }
-                                                let a: Vec<_> = mdh.get_all(k).iter().collect();
-                                                let c: Vec<_> = bm.get_all(k).iter().collect();
-                                                if a != c {
-                                                    why = Some(format!("status metadata {} changed", k));
-                                                }
+                                fail(&mut why, format!("poll {} of the response future panicked: {}", i, p));
+                            }
+                        }
+                        Ok(Poll::Pending) => {
+                            trace.push(Tr::L(vec![Tr::n(0u8)]));
+                            if act.reject.is_some() {
+                                fail(&mut why, "the future of a rejected call was Pending".into());
+                            } else if i >= cfg.pend {
+                                fail(&mut why, "Pending although the inner future was ready".into());
+                            }
+                        }
+                        Ok(Poll::Ready(Err(e))) => {
+                            trace.push(Tr::L(vec![Tr::n(3u8), Tr::s(&e)]));
+                            match (&act.reject, &cfg.answer) {
+                                (None, Answer::Err(want)) if *want == e && i == cfg.pend => {}
+                                _ => fail(&mut why, "an error that is not the inner service's answer at that poll".into()),
+                            }
+                        }
+                        Ok(Poll::Ready(Ok(resp))) => {
+                            let (p, mut body) = resp.into_parts();
+                            let bt = use_body(&mut body, &cfg.bops);
+                            let (code, ver) = (p.status.as_u16(), version_n(p.version));
+                            match &act.reject {
+                                None => {
+                                    trace.push(Tr::L(vec![Tr::n(1u8), Tr::n(code), hm_tr(&p.headers), Tr::L(bt.clone())]));
+                                    match &cfg.answer {
+                                        Answer::Ok(c, h, b) if i == cfg.pend => {
+                                            if *c != code || h != &p.headers {
+                                                fail(&mut why, "the inner response's head was not passed on unchanged".into());
                                             }
-                                            for k in bm.keys() {
-                                                if k.as_str() == "content-type" {
-                                                    if bm.get_all(k).iter().map(|v| v.as_bytes()).collect::<Vec<_>>() != vec![b"application/grpc"] {
-                                                        why = Some("recovered content-type is not tonic's".into());
-                                                    }
-                                                } else if !mdh.contains_key(k) || is_reserved(k.as_str()) {
-                                                    why = Some(format!("status metadata {} appeared", k));
-                                                }
+                                            // the body is the inner body for every use: the same uses on the same script, directly
+                                            let direct = use_body(&mut HintBody::new(b), &cfg.bops);
+                                            if direct != bt {
+                                                fail(&mut why, "the response body does not behave like the inner body (frames / is_end_stream / size_hint)".into());
                                             }
                                         }
+                                        _ => fail(&mut why, "a response that is not the inner service's answer at that poll".into()),
+                                    }
+                                }
+                                Some(spec) => {
+                                    trace.push(Tr::L(vec![
+                                        Tr::n(2u8),
+                                        Tr::n(code),
+                                        Tr::n(ver),
+                                        hm_tr(&p.headers),
+                                        Tr::opt(Status::from_header_map(&p.headers).as_ref().map(status_tr)),
+                                        Tr::L(bt.clone()),
+                                    ]));
+                                    if i != 0 {
+                                        fail(&mut why, "a rejected call's future was ready twice".into());
+                                    }
+                                    let (_, pairs) = build_status(spec);
+                                    let (md, indep) = match spec_pairs_independent(spec) {
+                                        Some(g) => (g, true),
+                                        None => (group_pairs(&pairs), false),
+                                    };
+                                    if let Some(s) = judge_reject_head(spec, &md, indep, code, &p.headers) {
+                                        fail(&mut why, s);
+                                    }
+                                    // trailers-only: no frame ever, ended, exactly 0 bytes - at every use
+                                    let inert: Vec<Tr> = cfg.bops.iter().map(|o| match o {
+                                        0 => Tr::L(vec![Tr::n(1u8)]),
+                                        1 => Tr::L(vec![Tr::n(5u8), Tr::bool(true)]),
+                                        _ => Tr::L(vec![Tr::n(6u8), Tr::L(vec![Tr::n(0u8), Tr::opt(Some(Tr::n(0u8)))])]),
+                                    }).collect();
+                                    if bt != inert {
+                                        fail(&mut why, "the body of a rejected call is not empty / ended / of size 0 at every use".into());
                                     }
                                 }
                             }
                         }
-                        _ => why = Some("a rejected call did not produce a response".into()),
+                    }
+                }
+                results.push(Tr::L(vec![Tr::n(1u8), Tr::L(trace)]));
+                // ---- direct oracle on what the inner service saw
+                let polled = fut_polls.load(Ordering::SeqCst) - polls_before;
+                match &act.reject {
+                    Some(_) => {
+                        if !seen_now.is_empty() || log.lock().unwrap().len() != log_before {
+                            fail(&mut why, "inner service invoked although the interceptor rejected".into());
+                        }
+                        if polled != 0 {
+                            fail(&mut why, "an inner future was polled for a rejected call".into());
+                        }
+                    }
+                    None => {
+                        if polled != n_polls.min(cfg.pend + 1) {
+                            fail(&mut why, format!("the inner future was polled {} times for {} polls of the response future", polled, n_polls));
+                        }
+                        let calls: Vec<&Seen> = seen_now.iter().filter_map(|e| if let Entry::Call(s) = e { Some(s) } else { None }).collect();
+                        if calls.len() != 1 || seen_now.len() != 1 || log.lock().unwrap().len() != log_before + 1 {
+                            fail(&mut why, format!("inner service used {} times by one accepted call", seen_now.len()));
+                        } else if let Some((om, oe)) = tap_now.first().and_then(|t| t.out.as_ref()) {
+                            let s = calls[0];
+                            if s.method != method_s {
+                                fail(&mut why, "method changed".into());
+                            } else if s.uri != uri_s {
+                                fail(&mut why, "uri changed".into());
+                            } else if s.version != version_n(rq.version) {
+                                fail(&mut why, "version changed".into());
+                            } else if s.body != rq.body {
+                                fail(&mut why, "body changed".into());
+                            } else if &s.ext != oe {
+                                fail(&mut why, "extensions are not the interceptor's".into());
+                            } else if &s.headers != om {
+                                fail(&mut why, "headers are not the interceptor's metadata".into());
+                            } else if !act.fresh {
+                                // every header the interceptor's mutations did not name is the original one
+                                let named: Vec<String> = act.ops.iter().map(|o| o.key.to_ascii_lowercase()).collect();
+                                for k in rq.headers.keys() {
+                                    if named.iter().any(|n| n == k.as_str()) {
+                                        continue;
+                                    }
+                                    let a: Vec<_> = rq.headers.get_all(k).iter().collect();
+                                    let c: Vec<_> = s.headers.get_all(k).iter().collect();
+                                    if a != c {
+                                        fail(&mut why, format!("untouched header {} changed (reserved: {})", k, is_reserved(k.as_str())));
+                                    }
+                                }
+                                if act.ext.is_none() && s.ext != rq.ext {
+                                    fail(&mut why, "untouched extensions changed".into());
+                                }
+                            }
+                        } else {
+                            fail(&mut why, "the interceptor's output was not recorded".into());
+                        }
                     }
                 }
             }
         }
     }
-    let obs = Tr::L(vec![Tr::L(seen.iter().map(seen_tr).collect()), out_tr]);
+    let lg: Vec<Entry> = log.lock().unwrap().clone();
+    let obs = Tr::L(vec![
+        Tr::L(results),
+        Tr::L(lg.iter().map(|e| match e {
+            Entry::Ready => Tr::L(vec![Tr::n(0u8)]),
+            Entry::Call(s) => Tr::L(vec![Tr::n(1u8), seen_tr(s)]),
+        }).collect()),
+    ]);
 
     // ---- model expression
-    let reject_coq = match &act.reject {
-        None => "None".to_string(),
-        Some(rj) => {
-            let (_, mdh) = build_status(rj);
-            format!("(Some (mkStatus {} {} {} {}))", rj.0, coq_bytes(rj.1.as_bytes()), coq_bytes(&rj.2), coq_hm(&mdh))
+    let mut ui = 0;
+    let ops_coq: Vec<String> = ops.iter().map(|o| match o {
+        SOp::Ready => "None".to_string(),
+        SOp::Call(rq) => {
+            let s = format!("(Some {})", coq_req(rq, &uris[ui]));
+            ui += 1;
+            s
         }
-    };
+    }).collect();
     let model = format!(
-        "obs_intercept (mkAction {} {} {} {}) ({}, ({}, {})) (mkHttpReq {} {} {} {} {} {})",
-        coq_bool(act.fresh),
-        coq_ops(&act.ops),
-        coq_opt(&act.ext, ext_coq),
-        reject_coq,
-        resp.0,
-        coq_hm(&resp.1),
-        format!("({}, {})", coq_bytes(&resp.2), coq_opt(&resp.3, |t| coq_hm(t))),
-        coq_bytes(method_s.as_bytes()),
-        coq_bytes(uri_s.as_bytes()),
-        version_n(rq.version),
-        coq_hm(&rq.headers),
-        ext_coq(&rq.ext),
-        coq_bytes(&rq.body),
+        "obs_seq {} (mkCfg {} {} {} {} {} {}) [{}]",
+        coq_list(&acts, coq_action),
+        coq_list(&cfg.ready, |e| match e {
+            ReadyEv::Pending => "(0, [])".to_string(),
+            ReadyEv::Ok => "(1, [])".to_string(),
+            ReadyEv::Err(e) => format!("(2, {})", coq_bytes(e.as_bytes())),
+        }),
+        cfg.pend,
+        coq_answer(&cfg.answer),
+        cfg.polls_acc,
+        cfg.polls_rej,
+        coq_list(&cfg.bops, |b| b.to_string()),
+        ops_coq.join("; "),
     );
-    let kind = if act.reject.is_some() { "reject" } else { "accept" };
-    out.hist("action", if act.reject.is_some() { "reject" } else if act.fresh { "replace-all" } else if act.ops.is_empty() && act.ext.is_none() { "identity" } else { "mutate" });
-    for o in &act.ops {
-        out.hist("action.op", ["insert", "append", "insert_bin", "append_bin", "remove", "remove_bin"][o.t as usize]);
+
+    // ---- input distribution
+    let mut nontrivial = false;
+    let mut k = 0;
+    for op in &ops {
+        match op {
+            SOp::Ready => out.hist("op", "poll_ready"),
+            SOp::Call(rq) => {
+                let act = if acts.is_empty() { None } else { Some(&acts[k % acts.len()]) };
+                k += 1;
+                out.hist("op", "call");
+                let label = match act {
+                    None => "identity",
+                    Some(a) if a.reject.is_some() => "reject",
+                    Some(a) if a.fresh => "replace-all",
+                    Some(a) if a.ops.is_empty() && a.ext.is_none() => "identity",
+                    _ => "mutate",
+                };
+                out.hist("action", label);
+                if let Some(a) = act {
+                    for o in &a.ops {
+                        out.hist("action.op", ["insert", "append", "insert_bin", "append_bin", "remove", "remove_bin"][o.t as usize]);
+                    }
+                    if let Some(rj) = &a.reject {
+                        out.hist("reject.code", rj.code);
+                        out.hist("reject.details_len_mod3", rj.details.len() % 3);
+                        out.hist("reject.md", match &rj.md { MdSpec::Ops(_) => "typed API", MdSpec::Raw(_) => "raw entries (independent expectation)" });
+                        out.hist("reject.md_has_details_bin_and_no_details", build_status(rj).1.iter().any(|(k, _)| k == "grpc-status-details-bin") && rj.details.is_empty());
+                    }
+                    nontrivial |= a.reject.is_some() || !a.ops.is_empty();
+                }
+                nontrivial |= !rq.headers.is_empty();
+                out.hist("request.version", version_n(rq.version));
+                out.hist("request.method", &rq.method);
+                out.hist("request.has_reserved_header", rq.headers.keys().any(|k| is_reserved(k.as_str())));
+                out.hist("request.has_repeated_header", rq.headers.keys().any(|k| rq.headers.get_all(k).iter().count() > 1));
+                out.hist("request.has_binary_header", rq.headers.keys().any(|k| k.as_str().ends_with("-bin")));
+            }
+        }
     }
-    out.hist("request.version", version_n(rq.version));
-    out.hist("request.method", &rq.method);
-    out.hist("request.has_reserved_header", rq.headers.keys().any(|k| is_reserved(k.as_str())));
-    out.hist("request.has_repeated_header", rq.headers.keys().any(|k| rq.headers.get_all(k).iter().count() > 1));
-    out.hist("request.has_binary_header", rq.headers.keys().any(|k| k.as_str().ends_with("-bin")));
     out.hist("via", if via_layer { "InterceptorLayer" } else { "InterceptedService::new" });
-    if let Some(rj) = &act.reject {
-        out.hist("reject.code", rj.0);
-        out.hist("reject.details_len_mod3", rj.2.len() % 3);
+    out.hist("inner_future.pendings", cfg.pend);
+    out.hist("polls.accepted_call", if cfg.polls_acc > cfg.pend { "to completion" } else { "stopped while Pending" });
+    out.hist("polls.rejected_call", cfg.polls_rej);
+    out.hist("poll_ready.script", cfg.ready.iter().map(|e| match e { ReadyEv::Pending => "P", ReadyEv::Ok => "O", ReadyEv::Err(_) => "E" }).collect::<String>());
+    if let Answer::Ok(_, _, b) = &cfg.answer {
+        out.hist("inner_body.steps", b.steps.len());
+        out.hist("inner_body.end_stream_values", format!("{:?}", { let mut v: Vec<bool> = b.steps.iter().map(|s| s.end).chain([b.fin.0]).collect(); v.sort(); v.dedup(); v }));
+        out.hist("inner_body.has_exact_hint", b.steps.iter().map(|s| s.hint).chain([b.fin.1]).any(|h| h.1 == Some(h.0)));
+    } else {
+        out.hist("inner_body.steps", "inner Err");
     }
+    out.hist("body_uses", cfg.bops.len());
     out.push(Case {
-        kind: if corpus { format!("corpus.{}", kind) } else { kind.to_string() },
+        kind: kind.to_string(),
         input: json!({
-            "method": rq.method, "uri": rq.uri, "version": version_n(rq.version), "headers": hm_json(&rq.headers),
-            "ext": [rq.ext.0, rq.ext.1], "body": hex(&rq.body),
-            "action": {"fresh": act.fresh, "ops": ops_json(&act.ops), "ext": act.ext.as_ref().map(|e| json!([e.0, e.1])),
-                       "reject": act.reject.as_ref().map(|r| json!([r.0, hex(r.1.as_bytes()), hex(&r.2), ops_json(&r.3)]))},
-            "inner_response": [resp.0, hm_json(&resp.1), hex(&resp.2), resp.3.as_ref().map(hm_json)], "via_layer": via_layer,
+            "acts": acts.iter().map(action_json).collect::<Vec<_>>(),
+            "ops": ops.iter().map(|o| match o { SOp::Ready => json!("poll_ready"), SOp::Call(rq) => json!({
+                "method": rq.method, "uri": rq.uri, "version": version_n(rq.version), "headers": hm_json(&rq.headers),
+                "ext": [rq.ext.0, rq.ext.1], "body": hex(&rq.body)}) }).collect::<Vec<_>>(),
+            "cfg": {"ready": cfg.ready.iter().map(|e| format!("{:?}", e)).collect::<Vec<_>>(), "pend": cfg.pend,
+                    "answer": match &cfg.answer { Answer::Err(e) => json!({"err": e}), Answer::Ok(c, h, b) => json!({"status": c, "headers": hm_json(h), "body": body_json(b)}) },
+                    "polls_acc": cfg.polls_acc, "polls_rej": cfg.polls_rej, "bops": cfg.bops},
+            "via_layer": via_layer,
         }),
         model,
         impl_obs: obs,
         oracle: why,
-        nontrivial: !rq.headers.is_empty() || act.reject.is_some() || !act.ops.is_empty(),
+        nontrivial,
+    });
+}
+
+/// header-map capacity: a rejecting status with `n` distinct metadata names
+fn cap_name(i: usize) -> String {
+    let l = |x: usize| (b'a' + (x % 26) as u8) as char;
+    format!("k{}{}{}{}", l(i / 17576), l(i / 676), l(i / 26), l(i))
+}
+fn run_cap(out: &mut Out, n: usize, code: u32, msg: &str, details: &[u8], polls: usize) {
+    let log = Arc::new(Mutex::new(vec![]));
+    let inner = Recorder { log: log.clone(), ready: VecDeque::new(), pend: 0, answer: Answer::Err(String::new()), fut_polls: Arc::new(AtomicUsize::new(0)) };
+    let mut md = MetadataMap::with_capacity(n);
+    for i in 0..n {
+        md.insert(MetadataKey::<Ascii>::from_bytes(cap_name(i).as_bytes()).unwrap(), MetadataValue::from_static("v"));
+    }
+    let st = Status::with_details_and_metadata(Code::from_i32(code as i32), msg.to_string(), Bytes::copy_from_slice(details), md);
+    let mut slot = Some(st);
+    let mut svc = InterceptedService::new(inner, move |_r: tonic::Request<()>| -> Result<tonic::Request<()>, Status> { Err(slot.take().expect("one call")) });
+    let w = noop_waker();
+    let mut cx = Context::from_waker(&w);
+    let mut fut = Box::pin(svc.call(http::Request::new(vec![])));
+    let names = 1 + n + 1 + (!msg.is_empty()) as usize + (!details.is_empty()) as usize;
+    let fits = names <= 24576;
+    let mut why = None;
+    let mut trace = vec![];
+    for i in 0..polls {
+        match catch(std::panic::AssertUnwindSafe(|| fut.as_mut().poll(&mut cx))) {
+            Err(p) => {
+                trace.push(Tr::L(vec![Tr::n(99u8)]));
+                // over the capacity of http::HeaderMap the panic is the documented outcome (checks/C12.json)
+                if (i == 0 && fits) || (i == 0 && !p.contains("MAX_SIZE")) || (i > 0 && fits && !p.contains(REPOLL_PANIC)) {
+                    why = Some(format!("poll {} panicked: {}", i, p));
+                }
+            }
+            Ok(Poll::Ready(Ok(resp))) => {
+                let h = resp.headers();
+                trace.push(Tr::L(vec![Tr::n(2u8), Tr::n(resp.status().as_u16()), Tr::n(version_n(resp.version())), Tr::n(h.keys_len() as u64), Tr::n(h.len() as u64)]));
+                if !fits || h.keys_len() != names || i != 0 {
+                    why = Some(format!("{} header names in the response, {} expected", h.keys_len(), names));
+                }
+                // every metadata name arrived
+                if (0..n).any(|j| h.get(cap_name(j).as_str()).map(|v| v.as_bytes()) != Some(b"v")) {
+                    why = Some("a metadata entry of the status is missing".into());
+                }
+            }
+            Ok(_) => {
+                trace.push(Tr::L(vec![Tr::n(98u8)]));
+                why = Some("a rejected call did not produce a response".into());
+            }
+        }
+    }
+    if !log.lock().unwrap().is_empty() {
+        why = Some("inner service invoked although the interceptor rejected".into());
+    }
+    out.hist("cap.names_in_response", if fits { "<= 24576 (fits)" } else { "> 24576 (panic)" });
+    out.push(Case {
+        kind: "corpus.cap".to_string(),
+        input: json!({"metadata_names": n, "code": code, "msg": msg, "details": hex(details), "polls": polls}),
+        model: format!("obs_cap {} {} {} {} {}", n, code, coq_bytes(msg.as_bytes()), coq_bytes(details), polls),
+        impl_obs: Tr::L(trace),
+        oracle: why,
+        nontrivial: true,
     });
 }
 
@@ -652,32 +1195,116 @@ fn gen_req(r: &mut Rng) -> Req {
         body,
     }
 }
-fn gen_resp(r: &mut Rng) -> Resp {
-    let code = *r.pick(&[200u16, 200, 200, 404, 500, 204, 0]);
-    let mut h = HeaderMap::new();
-    if code != 0 {
-        for _ in 0..r.below(3) {
-            let k = *r.pick(&["content-type", "grpc-status", "x-inner", "grpc-encoding"]);
-            h.append(k, HeaderValue::from_static("v"));
-        }
-    }
-    let n = r.range(0, 6) as usize;
-    let body = if code == 0 { b"inner failed".to_vec() } else { r.bytes(n) };
-    let trailers = if code != 0 && r.chance(1, 2) {
-        let mut t = HeaderMap::new();
-        t.insert("grpc-status", HeaderValue::from_static("0"));
-        if r.chance(1, 2) {
-            t.append("x-trailer", HeaderValue::from_static("t"));
-        }
-        Some(t)
-    } else {
-        None
+fn gen_hint(r: &mut Rng) -> Hint {
+    let lo = *r.pick(&[0u64, 0, 1, 5, 300, u32::MAX as u64 + 1]);
+    let up = match r.below(4) {
+        0 => None,
+        1 => Some(lo),
+        _ => Some(lo + r.range(0, 9)),
     };
-    (code, h, body, trailers)
+    (lo, up)
+}
+fn gen_body_script(r: &mut Rng) -> BodyScript {
+    let n = r.below(4) as usize;
+    let steps = (0..n)
+        .map(|_| {
+            let ev = match r.below(8) {
+                0 => BEv::Pending,
+                1 => BEv::Err((*r.pick(&["reset", "", "boom é"])).to_string()),
+                2 | 3 => {
+                    let mut t = HeaderMap::new();
+                    t.insert("grpc-status", HeaderValue::from_static("0"));
+                    if r.chance(1, 2) {
+                        t.append("x-trailer", HeaderValue::from_static("t"));
+                        t.append("x-trailer", HeaderValue::from_static("u"));
+                    }
+                    BEv::Trailers(t)
+                }
+                _ => {
+                    let len = r.range(0, 6) as usize;
+                    BEv::Data(r.bytes(len))
+                }
+            };
+            Step { end: r.chance(1, 2), hint: gen_hint(r), ev }
+        })
+        .collect();
+    BodyScript { steps, fin: (r.chance(1, 2), gen_hint(r)) }
+}
+fn gen_answer(r: &mut Rng) -> Answer {
+    let code = *r.pick(&[200u16, 200, 200, 404, 500, 204, 0]);
+    if code == 0 {
+        return Answer::Err((*r.pick(&["inner failed", "", "é"])).to_string());
+    }
+    let mut h = HeaderMap::new();
+    for _ in 0..r.below(3) {
+        let k = *r.pick(&["content-type", "grpc-status", "x-inner", "grpc-encoding"]);
+        h.append(k, HeaderValue::from_static("v"));
+    }
+    Answer::Ok(code, h, gen_body_script(r))
+}
+fn gen_bops(r: &mut Rng) -> Vec<u8> {
+    // every kind of use before, between and after the frames, past the end included
+    let n = r.range(2, 10);
+    (0..n).map(|_| *r.pick(&[0u8, 0, 0, 1, 2])).collect()
+}
+fn gen_cfg(r: &mut Rng, multi: bool) -> Cfg {
+    let ready = if multi || r.chance(1, 4) {
+        (0..r.below(4)).map(|_| match r.below(3) { 0 => ReadyEv::Pending, 1 => ReadyEv::Ok, _ => ReadyEv::Err((*r.pick(&["not ready", "closed", ""])).to_string()) }).collect()
+    } else {
+        vec![]
+    };
+    let pend = *r.pick(&[0usize, 0, 1, 2, 3]);
+    Cfg {
+        ready,
+        pend,
+        answer: gen_answer(r),
+        polls_acc: if r.chance(1, 8) { r.range(0, pend as u64) as usize } else { pend + 1 },
+        polls_rej: *r.pick(&[1usize, 1, 2, 3]),
+        bops: gen_bops(r),
+    }
+}
+fn gen_raw_md(r: &mut Rng) -> Vec<(String, Vec<u8>)> {
+    let n = r.range(0, 5);
+    (0..n)
+        .map(|_| {
+            if r.chance(1, 3) {
+                let k = r.pick(BIN_KEYS).to_ascii_lowercase();
+                let len = r.range(0, 7) as usize;
+                let b = r.bytes(len);
+                (k, b64(&b, r.chance(1, 2)))
+            } else {
+                let k = r.pick(ASCII_KEYS).to_ascii_lowercase();
+                let v: Vec<u8> = gen_ascii_value(r).into_iter().filter(|b| *b != 0x7f).collect();
+                (k, v)
+            }
+        })
+        .collect()
+}
+fn gen_status(r: &mut Rng) -> StatusSpec {
+    let md = if r.chance(1, 2) {
+        MdSpec::Raw(gen_raw_md(r))
+    } else {
+        MdSpec::Ops(gen_ops(r, 4, &HeaderMap::new()).into_iter().filter(|o| o.t < 4).collect())
+    };
+    StatusSpec { code: r.below(17) as u32, msg: gen_message(r), details: gen_details(r), md }
+}
+fn gen_action(r: &mut Rng, headers: &HeaderMap) -> Action {
+    match r.below(10) {
+        0 => Action { fresh: false, ops: vec![], ext: None, reject: None },
+        1..=4 => Action { fresh: false, ops: gen_ops(r, 4, headers), ext: if r.chance(1, 3) { Some(gen_ext(r)) } else { None }, reject: None },
+        5 => Action { fresh: true, ops: gen_ops(r, 3, headers), ext: Some(gen_ext(r)), reject: None },
+        _ => Action { fresh: r.chance(1, 4), ops: gen_ops(r, 2, headers), ext: None, reject: Some(gen_status(r)) },
+    }
 }
 
 fn op(t: u8, k: &str, v: &[u8]) -> Op {
     Op { t, key: k.to_string(), val: v.to_vec() }
+}
+fn accept_none() -> Action {
+    Action { fresh: false, ops: vec![], ext: None, reject: None }
+}
+fn reject_with(code: u32, msg: &str, details: &[u8], md: MdSpec) -> Action {
+    Action { fresh: false, ops: vec![], ext: None, reject: Some(StatusSpec { code, msg: msg.into(), details: details.to_vec(), md }) }
 }
 
 fn main() {
@@ -703,72 +1330,114 @@ fn main() {
         }
         Req { method: "POST".into(), uri: "/pkg.Svc/Method".into(), version, headers: h, ext: (Some(7), None), body: b"\x00\x00\x00\x00\x01x".to_vec() }
     };
-    let ok_resp = || {
+    // the inner answer of the corpus: a body whose is_end_stream / size_hint change from step to step and
+    // are NOT http-body's defaults, data, a Pending, trailers
+    let ok_answer = || {
         let mut h = HeaderMap::new();
         h.insert("content-type", HeaderValue::from_static("application/grpc"));
         let mut t = HeaderMap::new();
         t.insert("grpc-status", HeaderValue::from_static("0"));
-        (200u16, h, b"\x00\x00\x00\x00\x00".to_vec(), Some(t))
+        Answer::Ok(
+            200,
+            h,
+            BodyScript {
+                steps: vec![
+                    Step { end: false, hint: (5, Some(5)), ev: BEv::Data(b"\x00\x00\x00\x00\x00".to_vec()) },
+                    Step { end: false, hint: (0, Some(7)), ev: BEv::Pending },
+                    Step { end: true, hint: (0, None), ev: BEv::Trailers(t) },
+                ],
+                fin: (true, (0, Some(0))),
+            },
+        )
     };
+    let full_bops = vec![1u8, 2, 0, 1, 2, 0, 1, 2, 0, 1, 2, 0, 1, 2, 0];
+    let cfg0 = |pend: usize| Cfg { ready: vec![], pend, answer: ok_answer(), polls_acc: pend + 1, polls_rej: 2, bops: full_bops.clone() };
     let acts = vec![
-        Action { fresh: false, ops: vec![], ext: None, reject: None },
+        accept_none(),
         Action { fresh: false, ops: vec![op(0, "x-new", b"n"), op(1, "x-a", b"3"), op(3, "x-p-bin", b"\x01")], ext: None, reject: None },
         Action { fresh: false, ops: vec![op(4, "x-a", b""), op(5, "x-p-bin", b""), op(4, "te", b"")], ext: Some((None, Some("t".into()))), reject: None },
         Action { fresh: false, ops: vec![op(0, "x-a", b"only"), op(0, "content-type", b"text/plain"), op(0, "TE", b"x")], ext: Some((Some(8), None)), reject: None },
         Action { fresh: true, ops: vec![op(1, "authorization", b"Bearer x")], ext: Some((None, None)), reject: None },
-        Action { fresh: false, ops: vec![], ext: None, reject: Some((16, "no".into(), vec![], vec![])) },
-        Action { fresh: false, ops: vec![], ext: None, reject: Some((7, "denied: 100% \"é\"\n".into(), vec![0, 255, 7, 9], vec![op(1, "x-why", b"acl"), op(1, "te", b"forged"), op(1, "content-type", b"text/html"), op(1, "grpc-status", b"0"), op(3, "x-d-bin", b"\x00\x01"), op(1, "x-why", b"2")])) },
-        Action { fresh: false, ops: vec![], ext: None, reject: Some((0, "".into(), vec![1], vec![op(3, "grpc-status-details-bin", b"user")])) },
+        reject_with(16, "no", &[], MdSpec::Ops(vec![])),
+        reject_with(7, "denied: 100% \"é\"\n", &[0, 255, 7, 9], MdSpec::Ops(vec![op(1, "x-why", b"acl"), op(1, "te", b"forged"), op(1, "content-type", b"text/html"), op(1, "grpc-status", b"0"), op(3, "x-d-bin", b"\x00\x01"), op(1, "x-why", b"2")])),
+        reject_with(0, "", &[1], MdSpec::Ops(vec![op(3, "grpc-status-details-bin", b"user")])),
+        // outside the premise of c12_reject_status_recovered: empty details and a user entry under
+        // grpc-status-details-bin (wire clauses judged; the model is tied on it)
+        reject_with(7, "no", &[], MdSpec::Ops(vec![op(2, "grpc-status-details-bin", b"user")])),
+        reject_with(3, "raw md", &[9, 8, 7, 6, 5], MdSpec::Raw(vec![("x-why".into(), b"acl".to_vec()), ("te".into(), b"forged".to_vec()), ("x-d-bin".into(), b"AAE".to_vec()), ("x-why".into(), b"2".to_vec()), ("grpc-message".into(), b"forged".to_vec()), ("user-agent".into(), b"ua".to_vec()), ("grpc-message-type".into(), b"t".to_vec()), ("x-obs".into(), vec![0xe9, b' ', b'x'])])),
     ];
     for (i, act) in acts.iter().enumerate() {
-        for v in VERSIONS {
-            case(&mut out, mk_req(*v), act.clone(), ok_resp(), i % 2 == 0, true);
+        for (j, v) in VERSIONS.iter().enumerate() {
+            let kind = if act.reject.is_some() { "corpus.reject" } else { "corpus.accept" };
+            run_seq(&mut out, kind, vec![act.clone()], cfg0(j % 3), vec![SOp::Ready, SOp::Call(mk_req(*v))], i % 2 == 0);
         }
     }
     for c in 0..17u32 {
-        let act = Action { fresh: false, ops: vec![], ext: None, reject: Some((c, format!("code {}", c), vec![c as u8], vec![])) };
-        case(&mut out, mk_req(http::Version::HTTP_2), act, ok_resp(), false, true);
+        let act = reject_with(c, &format!("code {}", c), &[c as u8], if c % 2 == 0 { MdSpec::Ops(vec![]) } else { MdSpec::Raw(vec![("x-code".into(), c.to_string().into_bytes())]) });
+        run_seq(&mut out, "corpus.reject", vec![act], cfg0(0), vec![SOp::Ready, SOp::Call(mk_req(http::Version::HTTP_2))], false);
     }
-    for m in METHODS {
-        for u in URIS {
+    for (mi, m) in METHODS.iter().enumerate() {
+        for (ui, u) in URIS.iter().enumerate() {
+            // quick tier: a diagonal band of the method x URI table; thorough: all of it
+            if !a.thorough && (mi + ui) % 3 != 0 {
+                continue;
+            }
             let mut rq = mk_req(http::Version::HTTP_2);
             rq.method = m.to_string();
             rq.uri = u.to_string();
-            case(&mut out, rq, acts[1].clone(), ok_resp(), true, true);
+            run_seq(&mut out, "corpus.accept", vec![acts[1].clone()], cfg0(1), vec![SOp::Ready, SOp::Call(rq)], true);
         }
+    }
+    // poll_ready: every answer of the inner service is passed on, before / between / after calls; the
+    // interceptor's own state (a call counter choosing the action) advances on rejected calls too
+    {
+        let rq = mk_req(http::Version::HTTP_2);
+        let mut rq2 = mk_req(http::Version::HTTP_11);
+        rq2.headers.insert("x-second", HeaderValue::from_static("2"));
+        let cfg = Cfg { ready: vec![ReadyEv::Pending, ReadyEv::Err("closed".into()), ReadyEv::Ok, ReadyEv::Pending], pend: 2, answer: ok_answer(), polls_acc: 3, polls_rej: 3, bops: full_bops.clone() };
+        for via in [false, true] {
+            run_seq(&mut out, "corpus.seq", vec![acts[1].clone(), acts[6].clone(), acts[2].clone()], cfg.clone(),
+                    vec![SOp::Ready, SOp::Ready, SOp::Call(rq.clone()), SOp::Ready, SOp::Call(rq2.clone()), SOp::Call(rq.clone()), SOp::Ready, SOp::Ready, SOp::Call(rq2.clone()), SOp::Call(rq2.clone())], via);
+            run_seq(&mut out, "corpus.seq", vec![], Cfg { answer: Answer::Err("inner failed".into()), ..cfg.clone() }, vec![SOp::Call(rq.clone()), SOp::Ready, SOp::Call(rq2.clone())], via);
+            // a call that is never polled still reached the inner service; a stopped future stays Pending
+            run_seq(&mut out, "corpus.seq", vec![acts[0].clone()], Cfg { polls_acc: 0, ..cfg.clone() }, vec![SOp::Call(rq.clone())], via);
+            run_seq(&mut out, "corpus.seq", vec![acts[0].clone()], Cfg { polls_acc: 2, ..cfg.clone() }, vec![SOp::Call(rq.clone())], via);
+        }
+    }
+    // header-map capacity (N-C04-1 through the reject path): the boundary of http::HeaderMap
+    for (n, msg, det) in [(24574usize, "", &b""[..]), (24574, "m", b""), (24573, "m", b""), (24573, "m", b"d"), (24575, "", b""), (24572, "m", b"d"), (3, "m", b"d")] {
+        run_cap(&mut out, n, 13, msg, det, 2);
     }
 
     // ---- generated
-    let n = if a.thorough { 12000 } else { 1200 } * a.scale.max(1);
+    let n = if a.thorough { 8000 } else { 800 } * a.scale.max(1);
     for i in 0..n {
         let rq = gen_req(&mut r);
-        let kind = r.below(10);
-        let act = match kind {
-            0 => Action { fresh: false, ops: vec![], ext: None, reject: None },
-            1..=4 => Action {
-                fresh: false,
-                ops: gen_ops(&mut r, 4, &rq.headers),
-                ext: if r.chance(1, 3) { Some(gen_ext(&mut r)) } else { None },
-                reject: None,
-            },
-            5 => Action { fresh: true, ops: gen_ops(&mut r, 3, &rq.headers), ext: Some(gen_ext(&mut r)), reject: None },
-            _ => {
-                let md_ops = gen_ops(&mut r, 4, &HeaderMap::new()).into_iter().filter(|o| o.t < 4).collect();
-                Action {
-                    fresh: r.chance(1, 4),
-                    ops: gen_ops(&mut r, 2, &rq.headers),
-                    ext: None,
-                    reject: Some((r.below(17) as u32, gen_message(&mut r), gen_details(&mut r), md_ops)),
-                }
-            }
-        };
-        let resp = gen_resp(&mut r);
-        case(&mut out, rq, act, resp, i % 2 == 0, false);
+        if i % 5 == 4 {
+            // a sequence of uses of one service with a stateful interceptor
+            let n_acts = r.range(1, 3);
+            let acts: Vec<Action> = (0..n_acts).map(|_| gen_action(&mut r, &rq.headers)).collect();
+            let n_ops = r.range(2, 6);
+            let ops: Vec<SOp> = (0..n_ops).map(|_| if r.chance(2, 5) { SOp::Ready } else if r.chance(1, 2) { SOp::Call(rq.clone()) } else { SOp::Call(gen_req(&mut r)) }).collect();
+            let cfg = gen_cfg(&mut r, true);
+            run_seq(&mut out, "seq", acts, cfg, ops, i % 2 == 0);
+        } else {
+            let act = gen_action(&mut r, &rq.headers);
+            let cfg = gen_cfg(&mut r, false);
+            let kind = if act.reject.is_some() { "reject" } else { "accept" };
+            run_seq(&mut out, kind, vec![act], cfg, vec![SOp::Ready, SOp::Call(rq)], i % 2 == 0);
+        }
     }
 
     out.finish(
         IMPORTS,
-        "accept / reject: the real InterceptedService (built directly and through InterceptorLayer) over a recording inner tower service; requests over 11 methods x 10 URI shapes x 5 HTTP versions with header maps holding reserved, repeated and (padded / unpadded) binary entries, two extension types and a body; interceptor actions identity / insert / append / remove (+_bin, also aimed at reserved names and at entries of the wrong kind) / replace everything / change extensions / reject with a random status (17 codes x hostile messages x details of every length mod 3 x metadata incl. reserved names); inner answers incl. non-200 and Err. Non-trivial = request has headers, or the action mutates or rejects. Distinct = distinct (kind, model expression).",
-        json!({}),
+        "accept / reject / seq: the real InterceptedService (built directly and through InterceptorLayer) over a recording inner tower service with a scripted poll_ready, a scripted inner future (0-3 Pendings) and a scripted inner response body whose frames (data / trailers / error / Pending), is_end_stream and size_hint are arbitrary per step; every case is a sequence of poll_ready / call on ONE service with an FnMut interceptor (call counter choosing the action): accept / reject = [poll_ready, call], seq = 2-6 uses, 1-3 actions; the response future is polled a scripted number of times (rejected calls also past completion), the response body is used through a scripted interleaving of poll_frame / is_end_stream / size_hint incl. past its end. Requests over 11 methods x 10 URI shapes x 5 HTTP versions with header maps holding reserved, repeated and (padded / unpadded) binary entries, two extension types and a body; interceptor actions identity / insert / append / remove (+_bin, also aimed at reserved names and at entries of the wrong kind) / replace everything / change extensions / reject with a random status (17 codes x hostile messages x details of every length mod 3 x metadata incl. reserved names, built through the typed API or given as raw header entries); inner answers incl. non-200 and Err. corpus.cap: rejecting statuses with 3 .. 24575 metadata names around http::HeaderMap's capacity. Non-trivial = a request has headers, or an action mutates or rejects. Distinct = distinct (kind, model expression).",
+        json!({
+            "oracle_switches": [
+                "reject, status metadata holds a user entry named grpc-status-details-bin AND the status has no details (outside the premise of c12_reject_status_recovered, audit M1/M15): wire clauses, code and message are judged; recovered details / metadata are not (premise of c12_reject_status_recovered)",
+                "corpus.cap over 24576 header names: the panic of http::HeaderMap is the modelled, documented outcome; judged: inner service not invoked, the panic is the capacity one"
+            ],
+            "independent_of_tonic_in_the_reject_oracle": "grpc-status (decimal), grpc-message (own percent decoder), grpc-status-details-bin (own base64 decoder), header-name set; for raw-entry statuses also the expected metadata"
+        }),
     );
 }
